@@ -2502,6 +2502,11 @@ impl DnsIncoming {
         let mut name = "".to_string();
         let mut at_end = false;
 
+        // Every compression pointer must point before the start of the label
+        // sequence it was found in. The targets then strictly decrease, so
+        // pointers cannot form a cycle.
+        let mut segment_start = start_offset;
+
         // From RFC1035:
         // "...Domain names in messages are expressed in terms of a sequence of labels.
         // Each label is represented as a one octet length field followed by that
@@ -2565,13 +2570,14 @@ impl DnsIncoming {
                         )));
                     }
                     let pointer = (u16_from_be_slice(slice) ^ 0xC000) as usize;
-                    if pointer >= start_offset {
+                    if pointer >= segment_start {
                         // Error: could trigger an infinite loop.
                         return Err(Error::Msg(format!(
                             "Invalid name compression: pointer {} must be less than the start offset {}",
-                            &pointer, &start_offset
+                            &pointer, &segment_start
                         )));
                     }
+                    segment_start = pointer;
 
                     // A pointer marks the end of a domain name.
                     if !at_end {
